@@ -13,7 +13,7 @@ use jrv::report::*;
 use jrv::rng::Rng;
 use jrv::runner::*;
 use jrv::sanit::{self, SubOutcome};
-use jsonrpsee_core::client::{Subscription, SubscriptionClientT, SubscriptionCloseReason};
+use jsonrpsee_core::client::{ClientT, Subscription, SubscriptionClientT, SubscriptionCloseReason};
 use jsonrpsee_core::rpc_params;
 use serde_json::{Value, json};
 use std::collections::HashMap;
@@ -531,6 +531,102 @@ fn composition_specs(seed: u64, max_len: usize) -> Vec<Spec> {
 	specs
 }
 
+/// Directed scenario: the stream is dropped while the client's request queue is full, so the drop's own message to the
+/// background task is lost; a further notification for the subscription must then make the client send exactly one
+/// unsubscribe request naming it (without such a notification: at most one).
+async fn full_queue_drop_case(seed: u64) -> Out {
+	let mut out = Out::default();
+	let mut r = Rng::new(seed);
+	let with_notification = r.chance(3, 4);
+	let extra_callers = r.usize(3);
+	let (client, mut srv) = client(ClientCfg { sub_buffer: 1 + r.usize(3), max_concurrent_requests: 1, string_ids: r.bool(), ..Default::default() });
+	let c = client.clone();
+	let t = tokio::spawn(async move { c.subscribe::<Value, _>("sub", rpc_params!["s"], "unsub").await });
+	settle().await;
+	let sub_id = if r.bool() { json!(4242) } else { json!("sub-4242") };
+	for m in srv.drain_out() {
+		if let jrv::script::ClientOut::Msg { text, .. } = m {
+			if let WireMsg::Single(q) = parse_wire(&text) {
+				srv.push_text(ok_response(q.id.as_ref().unwrap_or(&Value::Null), sub_id.clone()));
+			}
+		}
+	}
+	let Ok(Ok(Ok(mut h))) = tokio::time::timeout(Duration::from_secs(30), t).await else {
+		out.violations.push(("subscribe-failed/accepted-subscription".into(), "setup".into()));
+		return out;
+	};
+	// a few notifications are read normally first
+	srv.push_text(sub_notif("m", &sub_id, json!({"seq": 0})));
+	settle().await;
+	if !matches!(tokio::time::timeout(Duration::from_millis(50), h.next()).await, Ok(Some(Ok(_)))) {
+		out.violations.push(("item-missing/live-subscription".into(), "first notification not yielded".into()));
+	}
+	out.items_yielded += 1;
+	// block the transport: the send task hangs in `send`, the next request fills the queue (capacity 1)
+	let gate = std::sync::Arc::new(tokio::sync::Notify::new());
+	*srv.ctl.send_gate.lock().unwrap() = Some(gate.clone());
+	let mut callers = Vec::new();
+	for i in 0..2 + extra_callers {
+		let c = client.clone();
+		callers.push(tokio::spawn(async move { c.request::<Value, _>("call", rpc_params![i]).await.map_err(|e| err_kind(&e)) }));
+		settle().await;
+	}
+	out.history.push("transport blocked, request queue full; the consumer drops the stream".into());
+	drop(h);
+	settle().await;
+	// unblock
+	*srv.ctl.send_gate.lock().unwrap() = None;
+	for _ in 0..8 {
+		gate.notify_waiters();
+		gate.notify_one();
+		settle().await;
+	}
+	let mut unsubs = 0usize;
+	let mut answer = |srv: &mut jrv::script::ServerSide, unsubs: &mut usize, out: &mut Out| {
+		for m in srv.drain_out() {
+			if let jrv::script::ClientOut::Msg { text, .. } = m {
+				if let WireMsg::Single(q) = parse_wire(&text) {
+					if q.method == "unsub" {
+						*unsubs += 1;
+						out.unsub_requests += 1;
+						if q.params.get(0) != Some(&sub_id) {
+							out.violations.push(("unsubscribe-names-foreign-id/any".into(), format!("{}", q.params)));
+						}
+						srv.push_text(ok_response(q.id.as_ref().unwrap_or(&Value::Null), json!(true)));
+					} else if let Some(id) = &q.id {
+						srv.push_text(ok_response(id, json!("fine")));
+					}
+				}
+			}
+		}
+	};
+	answer(&mut srv, &mut unsubs, &mut out);
+	settle().await;
+	if with_notification {
+		srv.push_text(sub_notif("m", &sub_id, json!({"seq": 1})));
+		out.history.push("server -> a further notification for the dropped subscription".into());
+		settle().await;
+		settle().await;
+		answer(&mut srv, &mut unsubs, &mut out);
+		settle().await;
+		answer(&mut srv, &mut unsubs, &mut out);
+		if unsubs != 1 {
+			out.violations.push(("unsubscribe-count/drop-with-full-queue".into(), format!("{unsubs} unsubscribe request(s) after a further notification arrived for the dropped stream, expected exactly 1")));
+		}
+	} else if unsubs > 1 {
+		out.violations.push(("unsubscribe-count/drop-with-full-queue".into(), format!("{unsubs} unsubscribe requests for one dropped stream")));
+	}
+	for t in callers {
+		match tokio::time::timeout(Duration::from_secs(30), t).await {
+			Ok(Ok(Ok(_))) => {}
+			other => out.violations.push(("call-not-completed/full-queue-scenario".into(), format!("{other:?}"))),
+		}
+	}
+	out.pushes += 2;
+	drop(client);
+	out
+}
+
 /// Stress scenario (real time, multi-thread): floods of notifications in singles and arrays with consumers reading
 /// concurrently; buffer large enough that nobody lags; every stream must yield exactly its own sequence, then end.
 async fn stress_case(seed: u64) -> (usize, Vec<(String, String)>) {
@@ -650,7 +746,7 @@ fn main() {
 	);
 	ev.assume("mode D: paused clock; after each step the harness sleeps 1 virtual ms, i.e. until the client's tasks are idle, so buffer occupancy is a function of the history");
 	ev.assume("when a subscription lags and the server's close notification for it is in the same array, 0 or 1 unsubscribe requests are accepted (the unsubscribe had not reached the wire)");
-	ev.assume("the client's request queue always has room in these histories (256 slots), so a drop must produce exactly one unsubscribe request");
+	ev.assume("in the step histories the client's request queue always has room (256 slots), so a drop must produce exactly one unsubscribe request; the directed family 'drop with a full request queue' (queue capacity 1, transport blocked) covers the other branch: exactly one after a further notification, at most one otherwise");
 	let mut violations = Vec::new();
 	let replay = ctx.replay.is_some();
 
@@ -681,6 +777,32 @@ fn main() {
 			for s in composition_specs(Rng::fork(ctx.seed, 77_000 + k).next_u64(), 6) {
 				specs.push((s, "composition"));
 			}
+		}
+	}
+	// directed family: drop with a full request queue
+	if !replay {
+		let n = ctx.tier.pick(300u64, 20_000);
+		let seed = ctx.seed;
+		let res = run_parallel((0..16u64).collect(), |_, shard| {
+			let mut ev = Evidence::new("");
+			let mut v = Vec::new();
+			for i in 0..n / 16 {
+				let s = Rng::fork(seed, 31_000_000 + shard * 1_000_000 + i).next_u64();
+				let o = block_on_virtual(full_queue_drop_case(s));
+				ev.eval();
+				ev.count("cases_full_queue_drop", 1);
+				ev.count("unsubscribe_requests_on_the_wire", o.unsub_requests as u64);
+				ev.nontrivial(&("full-queue-drop", s));
+				let w = json!({"scenario": "drop with a full request queue", "seed": s, "history": o.history});
+				for (sig, d) in o.violations {
+					v.push(Violation::new(sig, d, w.clone()));
+				}
+			}
+			(ev, v)
+		});
+		for (e, v) in res {
+			ev.merge(e);
+			violations.extend(v);
 		}
 	}
 	let results = run_parallel(specs.chunks(100).map(|c| c.to_vec()).collect(), |_, chunk| {
